@@ -124,7 +124,8 @@ def m_key_agreement(E, st, args, kwargs):
     combinations of RFC 9180 4.1 (SP 800-56A C(1e,1s) / C(1e,2s)):   Z = Ze || Zs,  result = kdf(Z)
         sender   (eph_priv, static_pub[, static_priv]):  Ze = DH(eph_priv, static_pub),  Zs = DH(static_priv, static_pub) or ''
         receiver (eph_pub, static_priv[, static_pub]):   Ze = DH(static_priv, eph_pub),  Zs = DH(static_priv, static_pub) or ''
-    raises ValueError iff one of the DH results is the neutral element / all-zero value (7.1.4; DH._compute_ecdh).
+    raises ValueError iff one of the DH results is the neutral element / all-zero value (7.1.4; DH._compute_ecdh); the private
+    keys being well formed (C05), that is a property of the public key alone: spec.rfc9180.dh_invalid(kem, pk).
     Caller obligations (the function answers them with TypeError): all keys on one curve, *_priv keys are private.
     ASSUMED: the Python composition is DH.key_agreement's documented behaviour, the ECDH value is C06's
     (bounded: bounded/ec.py ECDH against the reference ladder / RFC 7748 vectors)."""
@@ -166,7 +167,7 @@ def m_key_agreement(E, st, args, kwargs):
 
         def dh(s, priv, pub):
             z = apply_opaque(E, R + 'DH', s, [kem, acc[priv][2], acc[pub][2]], {})[0][2]
-            bad = apply_opaque(E, R + 'dh_invalid', s, [kem, acc[priv][2], acc[pub][2]], {})[0][2]
+            bad = apply_opaque(E, R + 'dh_invalid', s, [kem, acc[pub][2]], {})[0][2]
             return z, bad
         if sender:
             ze, bad_e = dh(s0, 'eph_priv', 'static_pub')
@@ -339,24 +340,21 @@ def add_hpke(reg):
     def DH(sk, pk):
         return '%sDH(%s, %s, %s)' % (R, kem, sk, pk)
 
-    def bad(sk, pk):
-        return '%sdh_invalid(%s, %s, %s)' % (R, kem, sk, pk)
+    def bad(pk):
+        return '%sdh_invalid(%s, %s)' % (R, kem, pk)
     same_curve = ['sender_key is None or sender_key.curve == receiver_key.curve', 'hashmod.digest_size <= 65535']
     E_ = 'result[1]'
     reg.add(Contract(HC + '._encap',
                      params={'receiver_key': KEY, 'kem_id': 'int[0..65535]', 'hashmod': HASHMOD, 'sender_key': KEY + '|none', 'eph_key': KEY + '|none'},
                      requires=same_curve + ['receiver_key.curve in %r' % (HPKE_CURVES,), 'sender_key is None or sender_key.has_private()',
                                             'eph_key is None or (eph_key.has_private() and eph_key.curve == receiver_key.curve)'],
-                     # 7.1.4: abort when a DH result is invalid; with a generated ephemeral key the condition is about fresh entropy,
-                     # hence `only_if` + the two `dh_ok` postconditions (together: raises iff, for a given eph_key)
-                     raises={'ValueError': ('only_if', '(eph_key is None or %s) or (sender_key is not None and %s)'
-                                            % (bad('eph_key.g_pub', pkR), bad(pkS, pkR)))},
+                     # 7.1.4: abort when a DH result is invalid (both DH operations of AuthEncap use pkR)
+                     raises={'ValueError': ('iff', bad(pkR))},
                      modifies=[],
                      ensures={'enc': 'eph_key is not None ==> %s == eph_key.g_pub' % E_,
                               'base': 'sender_key is None ==> result[0] == ' + secret(DH(E_, pkR), '%s + %s' % (E_, pkR)),
                               'auth': 'sender_key is not None ==> result[0] == '
                                       + secret('%s + %s' % (DH(E_, pkR), DH(pkS, pkR)), '%s + %s + %s' % (E_, pkR, pkS)),
-                              'dh_ok': 'not ' + bad(E_, pkR), 'dh_ok_auth': 'sender_key is not None ==> not ' + bad(pkS, pkR),
                               'len': 'len(result[0]) == hashmod.digest_size'},
                      result='tuple(bytes,bytes)', opaque=[R + 'extract_and_expand']))
     pkE = '%spk_canon(%s, enc)' % (R, kem)
@@ -365,7 +363,7 @@ def add_hpke(reg):
                      requires=same_curve + ['receiver_key.has_private()', 'receiver_key.curve in %r' % (HPKE_CURVES,)],
                      raises={'DeserializeError': ('iff', 'not %spk_ok(%s, enc)' % (R, kem)),
                              'ValueError': ('iff', '%spk_ok(%s, enc) and (%s or (sender_key is not None and %s))'
-                                            % (R, kem, bad(pkR, pkE), bad(pkR, pkS)))},
+                                            % (R, kem, bad(pkE), bad(pkS)))},
                      modifies=[],
                      ensures={'base': 'sender_key is None ==> result == ' + secret(DH(pkR, pkE), 'enc + ' + pkR),
                               'auth': 'sender_key is not None ==> result == '
@@ -409,22 +407,36 @@ def add_hpke(reg):
         pkE_ = '%spk_canon(%s, enc)' % (R, kem)
         pk_bad = '%s and %s and not (%s) and enc is not None and not %spk_ok(%s, enc)' % (psk_ok, supported, sending, R, kem)
         dh_bad_R = ('not (%s) and enc is not None and %s and %spk_ok(%s, enc) and (%s or (sender_key is not None and %s))'
-                    % (sending, supported, R, kem, bad(pkR, pkE_), bad(pkR, pkS)))
-        return static_bad, pk_bad, dh_bad_R, sending
+                    % (sending, supported, R, kem, bad(pkE_), bad(pkS)))
+        dh_bad_S = '(%s) and %s' % (sending, bad(pkR))
+        return static_bad, pk_bad, '(%s) or (%s)' % (dh_bad_R, dh_bad_S)
     one_private = 'sender_key is None or (sender_key.curve == receiver_key.curve and sender_key.has_private() != receiver_key.has_private())'
-    static_bad, pk_bad, dh_bad_R, sending = refusals('mode', 'psk_pair[0]', 'psk_pair[1]')
+    static_bad, pk_bad, dh_bad = refusals('mode', 'psk_pair[0]', 'psk_pair[1]')
     ens = setup('self', 'mode', 'psk_pair[0]', 'psk_pair[1]', 'info')
-    ens['refused'] = 'not (%s) and not (%s)' % (static_bad, dh_bad_R)
     reg.add(Contract(HC + '.__init__',
                      params={'receiver_key': KEY, 'enc': 'bytes|none', 'sender_key': KEY + '|none', 'psk_pair': 'tuple(bytes,bytes)',
                              'info': 'bytes', 'aead_id': 'int[1..3]', 'mode': 'int[0..3]'},
                      options={'assume_valid': False}, requires=[one_private],
-                     # invalid PSK / key / enc combinations are refused; a DH failure of a freshly generated ephemeral key
-                     # (sender) cannot be named at entry, hence only_if + the `refused` postcondition
+                     # invalid PSK / key / enc combinations are refused at set-up, and nothing else is
                      raises={'DeserializeError': ('iff', pk_bad),
-                             'ValueError': ('only_if', '(%s) or (%s) or (%s)' % (static_bad, dh_bad_R, sending))},
+                             'ValueError': ('iff', '(%s) or (not (%s) and (%s))' % (static_bad, static_bad, dh_bad))},
                      ensures=ens, modifies=['self.' + f for f in FIELDS],
-                     opaque=[R + 'labeled_extract', R + 'labeled_expand', R + 'extract_and_expand']))
+                     opaque=[R + 'labeled_extract', R + 'labeled_expand', R + 'extract_and_expand', R + 'psk_inputs_ok']))
+    # new(): mode selection (Table 1) from sender_key / psk, exactly one private key, curve match, supported AEAD and curve
+    mode_e = '%smode_of(sender_key is not None, psk is not None)' % R
+    psk_id_e, psk_e, info_e = '(psk[0] if psk is not None else b"")', '(psk[1] if psk is not None else b"")', '(info if info is not None else b"")'
+    keys_bad = ('(sender_key is not None and (sender_key.has_private() == receiver_key.has_private() or sender_key.curve != receiver_key.curve))')
+    static_bad, pk_bad, dh_bad = refusals(mode_e, psk_id_e, psk_e)
+    new_bad = 'aead_id not in (1, 2, 3) or %s or %s' % (keys_bad, static_bad)
+    ens = setup('result', mode_e, psk_id_e, psk_e, info_e)
+    reg.add(Contract(H + 'new',
+                     params={'receiver_key': KEY, 'aead_id': 'int', 'enc': 'bytes|none', 'sender_key': KEY + '|none',
+                             'psk': 'tuple(bytes,bytes)|none', 'info': 'bytes|none'},
+                     raises={'DeserializeError': ('iff', 'not (aead_id not in (1, 2, 3) or %s) and (%s)' % (keys_bad, pk_bad)),
+                             'ValueError': ('iff', '(%s) or (not (%s) and (%s))' % (new_bad, new_bad, dh_bad))},
+                     ensures=ens, modifies=[], result='obj:' + HC,
+                     opaque=[R + 'labeled_extract', R + 'labeled_expand', R + 'extract_and_expand', R + 'psk_inputs_ok', R + 'ks_key',
+                             R + 'ks_base_nonce', R + 'ks_exporter_secret', R + 'dhkem_secret']))
     # ---- C15 history / C11: the sequence number and the nonce
     seq_nonce = '%snonce(self._base_nonce, old(self._sequence))' % R
     reg.add(Contract(HC + '._new_cipher', params={},
